@@ -222,6 +222,13 @@ def check(run):
                 decl = "let a = %s%s;" % (lit, FT[t]) if form == "suffixed" else "let a: %s = %s;" % (t, lit)
                 fprogs.append("fn main() {\n    %s\n    string_println(%s_to_string(a))\n}\n" % (decl, t))
                 fmeta.append((t, lit, "lit-" + form))
+    # an operation on two float literals must happen at run time at the operand type: Go would fold it exactly
+    fpairs = [("0.1", "+", "0.2"), ("1.1", "*", "1.1"), ("0.3", "-", "0.1"), ("0.1", "*", "3.0"), ("0.7", "+", "0.1"), ("1.5", "+", "2.25"), ("2.5", "*", "4.0"), ("1.0", "/", "3.0"), ("0.1", "/", "0.3")]
+    fpairs += [("%d.%d" % (frng.randint(0, 99), frng.randint(1, 999)), frng.choice("+-*/"), "%d.%d" % (frng.randint(0, 99), frng.randint(1, 999))) for _ in range(20 if run.tier == "quick" else 300)]
+    for t in FT:
+        for a_, op_, b_ in fpairs:
+            fprogs.append("fn main() {\n    let a = %s%s %s %s%s;\n    string_println(%s_to_string(a))\n}\n" % (a_, FT[t], op_, b_, FT[t], t))
+            fmeta.append((t, (a_, op_, b_), "litlit"))
     fres = compile_many(run, fprogs, "c10float")
     fstats = {"float_programs": len(fprogs), "float_ok": 0}
     for (t, what, kind), r, src_ in zip(fmeta, fres, fprogs):
@@ -235,6 +242,27 @@ def check(run):
         elif kind in ("arith", "cmp"):
             m = re.search(r"func f\(a__\d+ (\w+), b__\d+ (\w+)\) (\w+) \{\n\s+var ret\d+ \w+\n\s+ret\d+ = a__\d+ (\S+) b__\d+\n", go)
             ok = bool(m) and m.group(1) == t and m.group(2) == t and m.group(4) == what and m.group(3) == (t if kind == "arith" else "bool")
+        elif kind == "litlit":
+            from fractions import Fraction
+
+            f32 = lambda x: _struct.unpack("f", _struct.pack("f", x))[0]
+            rnd = f32 if t == "float32" else float
+            m = re.search(r"var a__\d+ (\w+) = (-?[0-9.e+]+) ([-+*/]) (-?[0-9.e+]+)\n", go)
+            if not m:
+                ok = bool(re.search(r"var a__\d+ %s = \w+ [-+*/] \S+\n|var a__\d+ %s = \S+ [-+*/] \w+\n" % (t, t), go))  # one operand is a variable: a run-time operation
+            else:
+                # Go folds the constant expression exactly and rounds once; the program means: round each literal, operate, round
+                x, y = Fraction(m.group(2)), Fraction(m.group(4))
+                try:
+                    exact = {"+": x + y, "-": x - y, "*": x * y, "/": x / y}[m.group(3)]
+                    lx, ly = rnd(float(Fraction(what[0]))), rnd(float(Fraction(what[2])))
+                    run_time = rnd({"+": lx + ly, "-": lx - ly, "*": lx * ly, "/": lx / ly}[what[1]])
+                    # integer-looking literals divide as integers in Go
+                    if m.group(3) == "/" and "." not in m.group(2) and "." not in m.group(4) and "e" not in m.group(2) + m.group(4):
+                        exact = Fraction(int(x) // int(y)) if (x >= 0) == (y >= 0) else -Fraction(abs(int(x)) // abs(int(y)))
+                    ok = m.group(1) == t and rnd(float(exact)) == run_time
+                except ZeroDivisionError:
+                    ok = False
         else:
             m = re.search(r"var a__\d+ (\w+) = (\S+)\n", go)
             ok = False
